@@ -456,7 +456,7 @@ class Threads:
                              step_cap=6_000_000)
         sched.CURRENT = self.sim
         self.sim.line_probe = self.line_probe
-        if ch.flag("cfg.hotzone", 0.35):
+        if ch.flag("cfg.hotzone", 0.5):
             # converters are class-level singletons shared by all instances (the property's own anchor): stall
             # tasks inside them so that another task runs through the same converter meanwhile
             zone = ch.weighted("cfg.hotzone.files", [4, 2, 1])
@@ -529,11 +529,12 @@ class Threads:
         for n in names:
             parts = n.split(":")
             fam = ":".join(parts[:2]) if parts[0] in ("pipeline", "type", "tests") else parts[0]
-            fam = fam.split(".")[0]
+            if parts[0] != "type":
+                fam = fam.split(".")[0]        # tests:<module>; type:<Class>.<method> stays as it is
             fams.setdefault(fam, []).append(n)
         famlist = sorted(k for k, v in fams.items() if len(v) >= 3)
         focus = None
-        if famlist and ch.flag("cfg.focus", 0.4):
+        if famlist and ch.flag("cfg.focus", 0.5):
             # date-time handling is where the shared converters carry run-time state: weight it up
             weights = [6 if ("tzvar" in k or "DateTime" in k or "Time" in k) else 1 for k in famlist]
             focus = fams[famlist[ch.weighted("cfg.focus.family", weights)]]
